@@ -130,7 +130,17 @@ Fit(h, d, n, v, pv) ==
   /\ UNCHANGED <<memo, nres, cver, lver, kver, uver>>
   /\ Log([op |-> "Fit", h |-> h, d |-> d, n |-> n, res |-> 0])
 
+\* a computation that RAISES half-way (the model raises at some time step of compute_hedge / compute_pl): nothing the caller can
+\* observe has changed - no buffer, no parameter, no remembered result - and what the hedger carries from the aborted evaluation
+\* is never read by a later one (every evaluation starts with ResetPrev)
+Abort(h, d) ==
+  /\ Room /\ ver[UL[d]] # 0
+  /\ prev' = [prev EXCEPT ![h] = [n |-> npaths[UL[d]], src |-> "aborted"]]
+  /\ UNCHANGED <<ver, npaths, next, pver, memo, nres, cver, pnext, lver, kver, uver>>
+  /\ Log([op |-> "Abort", h |-> h, d |-> d, n |-> 0, res |-> 0])
+
 Next == \/ \E d \in Derivs, n \in Paths : Simulate(d, n, next)
+        \/ \E d \in Derivs, h \in Hedgers : Abort(h, d)
         \/ \E d \in Derivs : AddClause(d)
         \/ \E d \in Derivs : Relist(d)
         \/ \E d \in Derivs : Restrike(d) \/ SetCost(d)
@@ -142,7 +152,9 @@ Spec == Init /\ [][Next]_vars
 
 \* ------------------------------------------------------------------ properties
 Last == hist'[Len(hist')]
-Purity   == [][(hist' # hist /\ Last.op \in ReadOnlyOps) => (ver' = ver /\ npaths' = npaths)]_vars
+Purity   == [][(hist' # hist /\ Last.op \in ReadOnlyOps \cup {"Abort"}) => (ver' = ver /\ npaths' = npaths)]_vars
+\* an aborted computation leaves no trace in anything a result may depend on
+AbortLeavesNothing == [][(hist' # hist /\ Last.op = "Abort") => (memo' = memo /\ pver' = pver /\ cver' = cver /\ lver' = lver /\ kver' = kver /\ uver' = uver)]_vars
 Locality == [][(hist' # hist) => \A p \in Prims : p # UL[Last.d] => (ver'[p] = ver[p] /\ npaths'[p] = npaths[p])]_vars
 FreshOnSimulate == [][(hist' # hist /\ Last.op \in {"Simulate", "ComputeLoss", "Price", "Fit"}) => ver'[UL[Last.d]] > ver[UL[Last.d]]]_vars
 \* parameters change only in fit(), and only those of the hedger that is fitted
@@ -155,7 +167,9 @@ HistoryIndependent ==
      /\ hist[i].cv = hist[j].cv /\ hist[i].lv = hist[j].lv /\ hist[i].kv = hist[j].kv /\ hist[i].uv = hist[j].uv /\ hist[i].pv = hist[j].pv)
     => hist[i].res = hist[j].res
 \* the state a state-dependent hedger carries always has the shape of its last evaluation (never read across calls)
-CarriedStateIsOwn == \A h \in Hedgers : prev[h].src \in {"none", "own-output", "whole-output"}
+CarriedStateIsOwn == \A h \in Hedgers : prev[h].src \in {"none", "own-output", "whole-output", "aborted"}
+\* ... and a completed evaluation never leaves the state of an aborted one behind
+CompletedOverwritesAborted == [][(hist' # hist /\ Last.op \in {"ComputeHedge", "ComputePortfolio", "ComputePL", "ComputeLoss", "Price", "Fit"}) => prev'[Last.h].src # "aborted"]_vars
 
 Emit == (Len(hist) = MaxDepth) => PrintT(ToJson([hist |-> hist]))
 =============================================================================
